@@ -45,6 +45,8 @@ def _plan(draw, max_steps):
     items2 = []
     for i in range(draw(st.integers(0, 4))):
         it = {"_id": 500 + i, "k": draw(st.sampled_from([None, 0, 1]))}
+        if draw(st.integers(0, 5)) == 0:
+            del it["k"]                            # ragged: this item lacks the key most operations use
         for extra in ("p", "q", "v"):
             if draw(st.booleans()):
                 it[extra] = draw(st.sampled_from([None, 2, "w"]))
